@@ -20,6 +20,8 @@ pub struct Hist {
     pub dead: bool,
     pub nwk: [u8; 16],
     pub app: [u8; 16],
+    /// root key (AppKey) of the join attempt in progress: JoinAccept views are taken under it
+    pub root: [u8; 16],
 }
 
 impl Hist {
@@ -40,6 +42,7 @@ impl Hist {
             dead: false,
             nwk: NWK_KEY,
             app: APP_KEY,
+            root: ROOT_KEY,
         }
     }
     /// switch on live generation (must be called before the first event)
@@ -102,7 +105,7 @@ impl Hist {
     }
     /// a received byte string in window `w` ("rx1" | "rx2" | "rxc"); `hint` = counter it was built with
     pub fn rx_bytes(&mut self, w: &str, snr: i8, bytes: &[u8], hint: Option<u32>) -> &mut Self {
-        let view = view_of(bytes, &self.nwk, &self.app, &ROOT_KEY, hint);
+        let view = view_of(bytes, &self.nwk, &self.app, &self.root, hint);
         let e = format!("{} {} {} {}", w, snr, hex(bytes), view);
         self.ev(&e)
     }
@@ -373,7 +376,16 @@ pub fn some_cflist(rng: &mut Rng, region: &str) -> CfDesc {
 
 /// OTAA join attempt: JoinRequest, then a JoinAccept (valid / wrong key / none) in RX1 or RX2
 pub fn join_attempt(rng: &mut Rng, h: &mut Hist, accept_pct: u64) -> bool {
-    h.ev("otaa");
+    // mostly the first credential set; sometimes another one (a corrected key or another network
+    // after a failed attempt, a different device identity on re-join)
+    let k = if rng.chance(1, 3) { 1 + rng.below(2) as usize } else { 0 };
+    let old_root = h.root;
+    h.root = CREDS[k].2;
+    if k == 0 {
+        h.ev("otaa");
+    } else {
+        h.ev(&format!("otaa {}", k));
+    }
     if h.dead {
         return false;
     }
@@ -384,11 +396,14 @@ pub fn join_attempt(rng: &mut Rng, h: &mut Hist, accept_pct: u64) -> bool {
     let w = if rng.chance(1, 2) { "rx1" } else { "rx2" };
     if rng.below(100) < accept_pct {
         if rng.chance(1, 4) {
-            // a wrong-key accept first: must change nothing
-            let bad = build_join_accept(&OTHER_KEY, devaddr, dls, rxd, &cf);
+            // a wrong-key accept first: must change nothing (a foreign key, or the key of the
+            // previous attempt's credentials)
+            let wrong = if old_root != h.root && rng.chance(1, 2) { old_root } else { OTHER_KEY };
+            let bad = build_join_accept(&wrong, devaddr, dls, rxd, &cf);
             h.rx_bytes(w, 0, &bad, None);
         }
-        let acc = build_join_accept(&ROOT_KEY, devaddr, dls, rxd, &cf);
+        let root = h.root;
+        let acc = build_join_accept(&root, devaddr, dls, rxd, &cf);
         h.rx_bytes(w, 5, &acc, None);
         h.devaddr = devaddr;
         h.last_down = None;
